@@ -251,3 +251,583 @@ def write_if_changed(path, text):
     with open(path, "w") as f:
         f.write(text)
     return True
+
+
+# =========================================================================== circuits
+ONEQ = ["h", "x", "y", "z", "rx", "ry", "rz", "u", "p"]
+NPAR = {"h": 0, "x": 0, "y": 0, "z": 0, "rx": 1, "ry": 1, "rz": 1, "u": 3, "p": 1}
+UNITS = {"rx": [Fraction(1, 2)], "ry": [Fraction(1, 2)], "rz": [Fraction(1, 2)],
+         "u": [Fraction(1, 2), Fraction(1), Fraction(1)], "p": [Fraction(1)]}
+COQ_GATE = {"h": "GH", "x": "GX", "y": "GY", "z": "GZ", "rx": "GRx", "ry": "GRy", "rz": "GRz", "u": "GU", "p": "GP"}
+TS = [Fraction(a, b) for a in range(-4, 5) for b in (1, 2, 3) if math.gcd(abs(a), b) == 1 or a == 0]
+
+
+def cs_of(t):
+    t = Fraction(t)
+    return (1 - t * t) / (1 + t * t), 2 * t / (1 + t * t)
+
+
+def gen_gate(rng, q):
+    g = rng.choice(ONEQ)
+    ts = []
+    for k in range(NPAR[g]):
+        t = rng.choice(TS)
+        while g == "p" and t == 0:
+            t = rng.choice(TS)
+        ts.append(t)
+    return mk_gate(g, q, ts)
+
+
+def mk_gate(g, q, ts):
+    op = {"g": g, "q": [q]}
+    if ts:
+        op["t"] = [[Fraction(t).numerator, Fraction(t).denominator] for t in ts]
+        angles = []
+        for t, u in zip(ts, UNITS[g]):
+            c, s = cs_of(t)
+            angles.append(math.atan2(float(s), float(c)) / float(u))
+        op["a"] = angles
+    return op
+
+
+def gen_circuit(rng, max_modes, variant=None):
+    """In-domain circuits (variant None): the k-th measurement writes clbit k, a measured qubit is
+    not used again, conditioned blocks act on one qubit and have no else part.
+    Variants for the search: 'else', 'multi', 'clorder'."""
+    while True:
+        n = rng.choice([1, 2, 2, 3, 3, 3])
+        if variant in ("multi", "clorder") and n < 3:
+            n = 3
+        if variant == "else" and n < 2:
+            n = 2
+        nops = rng.randint(1, 8)
+        live = list(range(n))
+        ops, ncz, nm, napp = [], 0, 0, 0
+        clperm = list(range(n))
+        if variant == "clorder":
+            while clperm == list(range(n)):
+                rng.shuffle(clperm)
+        written = []
+        for _ in range(nops):
+            r = rng.random()
+            if r < 0.17 and len(live) >= 2 and 2 * n + 2 * (ncz + 1) <= max_modes:
+                a, b = rng.sample(live, 2)
+                ops.append({"g": rng.choice(["cz", "cx"]), "q": [a, b]})
+                ncz += 1
+            elif r < 0.32 and live and (len(live) > 1 or rng.random() < 0.3):
+                q = rng.choice(live)
+                live.remove(q)
+                c = clperm[nm]
+                ops.append({"g": "measure", "q": [q], "c": c})
+                written.append(c)
+                nm += 1
+            elif r < 0.50 and nm > 0 and live and napp < 9:
+                c = rng.choice(written)
+                q = rng.choice(live)
+                body = [gen_gate(rng, q) for _ in range(rng.randint(1, 2))]
+                op = {"g": "if", "c": c, "v": rng.randint(0, 1), "body": body}
+                if variant == "multi" and len(live) >= 2:
+                    q2 = rng.choice([z for z in live if z != q])
+                    body.append(gen_gate(rng, q2))
+                    rng.shuffle(body)
+                if variant == "else":
+                    op["else"] = [gen_gate(rng, q) for _ in range(rng.randint(1, 2))]
+                napp += len(body)
+                ops.append(op)
+            elif live and napp < 10:
+                ops.append(gen_gate(rng, rng.choice(live)))
+                napp += 1
+        if rng.random() < 0.5:
+            rest = list(live)
+            rng.shuffle(rest)
+            for q in rest:
+                ops.append({"g": "measure", "q": [q], "c": clperm[nm]})
+                nm += 1
+        c = {"n": n, "ncl": n, "ops": ops}
+        if not ops:
+            continue
+        if variant == "else" and not any(o.get("else") for o in ops):
+            continue
+        if variant == "multi" and not any(o["g"] == "if" and len({b["q"][0] for b in o["body"]}) > 1 for o in ops):
+            continue
+        if variant == "clorder":
+            ms = [o["c"] for o in ops if o["g"] == "measure"]
+            if ms == list(range(len(ms))) or not any(o["g"] == "if" for o in ops):
+                continue
+        finalize(c)
+        return c
+
+
+def finalize(c):
+    """cutoff: photons+1, one more if a gate follows a measurement (piquasso lowers the cutoff by the
+    measured photons and refuses passive gates below cutoff 3: finding 9 of DESIGN section 5, C13/C01)."""
+    seen_m = False
+    after = False
+    for o in c["ops"]:
+        if o["g"] == "measure":
+            seen_m = True
+        elif seen_m:
+            after = True
+    c["extra_cutoff"] = 2 if after else 1
+    return c
+
+
+def in_domain(c):
+    ms = [o["c"] for o in c["ops"] if o["g"] == "measure"]
+    if ms != list(range(len(ms))):
+        return False
+    for o in c["ops"]:
+        if o["g"] == "if" and (o.get("else") or len({b["q"][0] for b in o["body"]}) != 1):
+            return False
+    return True
+
+
+def n_ent(c):
+    return sum(1 for o in c["ops"] if o["g"] in ("cz", "cx"))
+
+
+def features(c):
+    f = set()
+    for o in c["ops"]:
+        f.add(o["g"])
+        if o["g"] == "if":
+            for b in o["body"] + (o.get("else") or []):
+                f.add("if:" + b["g"])
+    return f
+
+
+# --------------------------------------------------------------------------- Coq terms
+def s2(fr):
+    fr = Fraction(fr)
+    return "(s2q ((%d) # %d))" % (fr.numerator, fr.denominator)
+
+
+def coq_gate(op):
+    g = op["g"]
+    args = []
+    for t in op.get("t", []):
+        c, s = cs_of(Fraction(t[0], t[1]))
+        args += [s2(c), s2(s)]
+    return COQ_GATE[g] if not args else "(%s %s)" % (COQ_GATE[g], " ".join(args))
+
+
+def coq_circuit(c):
+    items = []
+    for o in c["ops"]:
+        g = o["g"]
+        if g == "measure":
+            items.append("QM %d %d" % (o["q"][0], o["c"]))
+        elif g == "cz":
+            items.append("QCZ %d %d" % tuple(o["q"]))
+        elif g == "cx":
+            items.append("QCX %d %d" % tuple(o["q"]))
+        elif g == "if":
+            q = o["body"][0]["q"][0]
+            items.append("QIf %d %s %d [%s]" % (o["c"], "true" if o["v"] else "false", q,
+                                                "; ".join(coq_gate(b) for b in o["body"])))
+        else:
+            items.append("QG %s %d" % (coq_gate(o), o["q"][0]))
+    return "(%d, [%s])" % (c["n"], "; ".join(items))
+
+
+CASES_IMPORTS = (CASES_HEADER.replace("Open Scope Z_scope.", "") +
+                 "From PV Require Import C19.DRBase C19.EncodeGen C19.DRModel C19.RunInst.\nOpen Scope nat_scope.\n")
+
+
+def cases_body(circuits):
+    return CASES_IMPORTS + """
+Definition cases : list (nat * list (@qop S2)) := [
+%s].
+Eval vm_compute in map (fun '(n, p) => prob_table n p) cases.
+Eval vm_compute in map (fun '(n, p) => photonic_agrees n p) cases.
+Eval vm_compute in map (fun '(n, p) => encode_out n p) cases.
+""" % ";\n".join(coq_circuit(c) for c in circuits)
+
+
+def parse_nested(txt):
+    """'[[1%Z; 2%Z]; [3%Z]]' -> nested python lists of ints"""
+    txt = re.sub(r"%[A-Za-z]+", "", txt)
+    txt = txt.replace(";", ",").replace("(", "").replace(")", "")
+    txt = re.sub(r"\bnil\b", "[]", txt)
+    return json.loads(txt)
+
+
+def parse_evals(out):
+    res = []
+    for m in re.finditer(r"=\s*(.*?)\n\s*:\s*list", out, re.S):
+        res.append(parse_nested(m.group(1)))
+    return res
+
+
+def s2float(v4):
+    return Fraction(v4[0], v4[1]), Fraction(v4[2], v4[3])
+
+
+def s2val(v4):
+    a, b = s2float(v4)
+    return float(a) + float(b) * math.sqrt(2.0)
+
+
+# --------------------------------------------------------------------------- implementation results
+def impl_distribution(c, run):
+    """Joint distribution over bit strings from the branches of the simulator, post-selected on the
+    code space and renormalised.  Returns (table, code weight, leaked weight) or raises ValueError."""
+    n = c["n"]
+    mq = [o["q"][0] for o in c["ops"] if o["g"] == "measure"]
+    rest = [q for q in range(n) if q not in mq]
+    table = [0.0] * (2 ** n)
+    leak = 0.0
+    for b in run["branches"]:
+        oc = b["outcome"]
+        if len(oc) != 2 * len(mq):
+            raise ValueError("branch outcome %r has not 2 entries per measurement" % (oc,))
+        bits = {}
+        ok = True
+        for j, q in enumerate(mq):
+            pair = (oc[2 * j], oc[2 * j + 1])
+            if pair == (1, 0):
+                bits[q] = 0
+            elif pair == (0, 1):
+                bits[q] = 1
+            else:
+                ok = False
+        for occ, p in b["final"]:
+            w = b["freq"] * p
+            if len(occ) != 2 * len(rest):
+                raise ValueError("final state on %d modes, expected %d" % (len(occ), 2 * len(rest)))
+            good = ok
+            x = dict(bits)
+            for j, q in enumerate(rest):
+                pair = (occ[2 * j], occ[2 * j + 1])
+                if pair == (1, 0):
+                    x[q] = 0
+                elif pair == (0, 1):
+                    x[q] = 1
+                else:
+                    good = False
+            if good:
+                table[sum(x[q] << q for q in range(n))] += w
+            else:
+                leak += w
+    W = sum(table)
+    if W <= 0:
+        raise ValueError("no weight on the code space")
+    return [p / W for p in table], W, leak
+
+
+KIND = {"Phaseshifter": 1, "Beamsplitter": 2, "PostSelectPhotons": 3, "ParticleNumberMeasurement": 4}
+
+
+def compare_program(model, run, k1, k2):
+    """model: encode_out of the Coq model; run: the implementation's program.  -> None or a message"""
+    prog = run["program"]
+    if not model:
+        return "model encoder fails"
+    if len(prog) < 2 or prog[0]["cls"] != "Vacuum" or prog[1]["cls"] != "Create":
+        return "program does not start with Vacuum, Create"
+    if prog[0]["modes"] != model[0] or prog[1]["modes"] != model[1]:
+        return "preparation modes differ: impl %r/%r model %r/%r" % (prog[0]["modes"], prog[1]["modes"], model[0], model[1])
+    body = prog[2:]
+    if len(body) != len(model) - 2:
+        return "program length differs: impl %d model %d" % (len(body), len(model) - 2)
+    for i, (ins, m) in enumerate(zip(body, model[2:])):
+        kind = KIND.get(ins["cls"])
+        if kind != m[0]:
+            return "instruction %d: class %s vs model kind %d" % (i, ins["cls"], m[0])
+        modes = [x for x in m[1:3] if x >= 0]
+        if ins["modes"] != modes:
+            return "instruction %d: modes %r vs model %r" % (i, ins["modes"], modes)
+        cond = ins["cond"]
+        if m[3] < 0:
+            if cond is not None:
+                return "instruction %d: unexpected condition" % i
+        else:
+            if cond is None or cond.get("reads") != [m[3]] or cond.get("value") != m[4]:
+                return "instruction %d: condition %r vs model (pair %d == %d)" % (i, cond, m[3], m[4])
+        rest = m[5:]
+        if kind in (1, 2):
+            names = ["phi"] if kind == 1 else ["theta", "phi"]
+            for j, nm in enumerate(names):
+                cm, sm = rest[8 * j:8 * j + 4], rest[8 * j + 4:8 * j + 8]
+                ang = ins["params"][nm].get("const")
+                if ang is None:
+                    return "instruction %d: parameter %s is not a number" % (i, nm)
+                if cm[0] in (1000, 2000) and cm[1] == 1:
+                    exp = float(k1 if cm[0] == 1000 else k2) * math.pi * (1 if sm[0] > 0 else -1)
+                    if abs(ang - exp) > 1e-12:
+                        return "instruction %d: %s = %r, expected fixed angle %r" % (i, nm, ang, exp)
+                else:
+                    if abs(math.cos(ang) - s2val(cm)) > 1e-12 or abs(math.sin(ang) - s2val(sm)) > 1e-12:
+                        return "instruction %d: %s = %r, model cos/sin %r/%r" % (i, nm, ang, s2val(cm), s2val(sm))
+        elif kind == 3:
+            if ins["params"]["photon_counts"].get("list") != rest[:2]:
+                return "instruction %d: photon_counts" % i
+    return None
+
+
+def tol_for(c):
+    k = n_ent(c)
+    return 1e-9 if k == 0 else 5e-4 * k
+
+
+def classify(c):
+    if any(o.get("else") for o in c["ops"]):
+        return "C19:if_else:else-branch-dropped"
+    if any(o["g"] == "if" and len({b["q"][0] for b in o["body"]}) > 1 for o in c["ops"]):
+        return "C19:if_else:multi-qubit-body-uses-first-qubit-modes"
+    ms = [o["c"] for o in c["ops"] if o["g"] == "measure"]
+    if ms != list(range(len(ms))):
+        return "C19:condition:reads-outcome-position-of-clbit-index"
+    return "C19:statistics:" + "+".join(sorted(features(c)))
+
+
+def impl_fails(c, run):
+    """The property stated on the implementation: its post-selected distribution equals Qiskit's."""
+    if run.get("error"):
+        return "implementation raises " + run["error"]
+    if "qiskit" not in run:
+        return None
+    try:
+        dist, W, leak = impl_distribution(c, run)
+    except ValueError as e:
+        return str(e)
+    d = max(abs(a - b) for a, b in zip(dist, run["qiskit"]))
+    if d > tol_for(c) + 1e-9:
+        return "max |p_impl - p_qiskit| = %.3g > %.3g" % (d, tol_for(c))
+    return None
+
+
+def shrink(c, rounds=4, silent=False):
+    """drop operations while the implementation still disagrees with Qiskit (same class)"""
+    key = classify(c)
+    cur = c
+    for _ in range(rounds):
+        cands = []
+        for i in range(len(cur["ops"])):
+            ops = cur["ops"][:i] + cur["ops"][i + 1:]
+            d = dict(cur, ops=ops)
+            # keep clbit references meaningful
+            written = set()
+            okc = True
+            for o in ops:
+                if o["g"] == "measure":
+                    written.add(o["c"])
+                if o["g"] == "if" and o["c"] not in written:
+                    okc = False
+            if ops and okc and classify(d) == key:
+                cands.append(finalize(d))
+        if not cands:
+            break
+        res = run_impl("c19_impl.py", {"circuits": cands, "reference": True}, timeout=1800)["runs"]
+        nxt = None
+        for d, r in zip(cands, res):
+            w = None if str(r.get("error", "")).startswith("qiskit") else impl_fails(d, r)
+            if w and (w.startswith("max |p_impl") or not silent):
+                nxt = d
+                break
+        if nxt is None:
+            break
+        cur = nxt
+    return cur
+
+
+CORPUS = os.path.join(os.path.dirname(os.path.dirname(os.path.abspath(__file__))), "corpus", "c19.jsonl")
+
+
+def load_corpus():
+    out = []
+    if os.path.exists(CORPUS):
+        for line in open(CORPUS):
+            line = line.strip()
+            if line and not line.startswith("#"):
+                out.append(finalize(json.loads(line)))
+    return out
+
+
+def run_impl_parallel(circuits, jobs=3):
+    """run the circuits in `jobs` interpreter processes (round robin), results in input order"""
+    from concurrent.futures import ThreadPoolExecutor
+
+    if len(circuits) < 2 * jobs:
+        return run_impl("c19_impl.py", {"circuits": circuits, "reference": True}, timeout=6000)["runs"]
+    parts = [list(range(j, len(circuits), jobs)) for j in range(jobs)]
+    with ThreadPoolExecutor(max_workers=jobs) as ex:
+        futs = [ex.submit(run_impl, "c19_impl.py", {"circuits": [circuits[i] for i in part], "reference": True}, 6000)
+                for part in parts]
+        outs = [f.result()["runs"] for f in futs]
+    res = [None] * len(circuits)
+    for part, o in zip(parts, outs):
+        for i, r in zip(part, o):
+            res[i] = r
+    return res
+
+
+# =========================================================================== the check
+def run(chk: Check):
+    T = chk.thorough
+    corr_broken = []
+    # ---- translator (fail closed)
+    sent = run_impl("c19_impl.py", {"sentinel": True})
+    trans_err = None
+    try:
+        text = generate_encodegen(sent)
+        write_if_changed(GEN_PATH, text)
+        k1, k2 = klm_angles()
+    except TranslateError as e:
+        trans_err = str(e)
+        k1, k2 = Fraction(5474, 18000), Fraction(1763, 18000)
+    if os.environ.get("C19_SKIP_PROOFS") and not trans_err:
+        # developer switch for mutation experiments while the shared build lock is busy: the
+        # model's existing .vo files are used, the obligations are reported as NOT discharged
+        chk.proof = {"ok": False, "log": "skipped"}
+        chk.proof_broken = ["proofs skipped (C19_SKIP_PROOFS set): this run cannot be green"]
+        chk.coverage.update({"obligations": 0, "discharged": 0, "theorems": [], "trusted_base": []})
+    else:
+        chk.proofs()
+    if trans_err:
+        chk.proof_broken = ["translator failed closed: " + trans_err] + list(chk.proof_broken)
+        chk.notes.append("EncodeGen.v could not be regenerated: %s (the theorems were NOT re-proved against this tree)" % trans_err)
+    model_ok = chk.proof.get("ok") or os.path.exists(os.path.join(COQ, "theories", "C19", "RunInst.vo"))
+
+    # ---- inputs
+    n_dom = 400 if T else 60
+    n_var = 30 if T else 5
+
+    def mm():
+        # total modes (2 per qubit + 2 per entangling gate): the simulator's Create builds dense operators
+        r = chk.rng.random()
+        if T:
+            return 6 if r < 0.5 else (8 if r < 0.93 else 10)
+        return 6 if r < 0.8 else 8
+
+    corpus = load_corpus()
+    circuits = list(corpus)
+    circuits += [gen_circuit(chk.rng, mm()) for _ in range(n_dom)]
+    for v in ("else", "multi", "clorder"):
+        circuits += [gen_circuit(chk.rng, 6, v) for _ in range(n_var)]
+    res = run_impl_parallel(circuits, jobs=4 if T else 3)
+
+    # ---- correspondence: model (Coq, exact) vs implementation
+    dom = [(c, r) for c, r in zip(circuits, res) if in_domain(c)]
+    chunk = 25
+    bodies = [cases_body([c for c, _ in dom[i:i + chunk]]) for i in range(0, len(dom), chunk)]
+    tables, agrees, encs = [], [], []
+    if model_ok:
+        try:
+            outs = coq_eval_parallel("c19_cases", bodies, jobs=4)
+            for o in outs:
+                ev = parse_evals(o)
+                tables += ev[0]
+                agrees += ev[1]
+                encs += ev[2]
+        except Exception as e:  # noqa
+            corr_broken.append("model could not be evaluated: %s" % str(e)[-400:])
+    else:
+        corr_broken.append("model does not compile; correspondence not evaluated")
+    n_struct = n_sem = n_sem_ent = 0
+    maxdev = {0: 0.0}
+    seen = set()
+    samples = []
+    if len(tables) == len(dom):
+        for (c, r), tab, ag, enc in zip(dom, tables, agrees, encs):
+            desc = json.dumps(c["ops"])
+            if "program" in r:
+                n_struct += 1
+                msg = compare_program(enc, r, k1, k2)
+                if msg:
+                    corr_broken.append("emitted program: %s; circuit %s" % (msg, desc[:300]))
+            if ag == 0:
+                corr_broken.append("model: photonic run of the encoded program differs from the qubit run; circuit %s" % desc[:300])
+            if r.get("error"):
+                continue  # reported by the search below
+            try:
+                dist, W, leak = impl_distribution(c, r)
+            except ValueError as e:
+                corr_broken.append("implementation result not understood (%s); circuit %s" % (e, desc[:300]))
+                continue
+            n = c["n"]
+            model = [s2val(tab[4 * i:4 * i + 4]) for i in range(2 ** n)]
+            k = n_ent(c)
+            d = max(abs(a - b) for a, b in zip(dist, model))
+            maxdev[k] = max(maxdev.get(k, 0.0), d)
+            n_sem += 1
+            n_sem_ent += 1 if k else 0
+            if d > tol_for(c) * (1 + max(model)):
+                corr_broken.append("probabilities: max |impl - model| = %.3g (tolerance %.3g); circuit %s" % (d, tol_for(c), desc[:300]))
+            if desc not in seen and len(c["ops"]) >= 2:
+                seen.add(desc)
+            if len(samples) < 2 and k and any(o["g"] == "if" for o in c["ops"]):
+                samples.append({"circuit": c["ops"], "model": model, "impl": dist, "code_weight": W, "leak": leak})
+    chk.stream("emitted program (modes, classes, conditions, parameters) vs model encoder", n_struct,
+               sum(1 for c, _ in dom if len(c["ops"]) >= 2), samples=[{"circuit": dom[len(corpus)][0]["ops"]}] if len(dom) > len(corpus) else None)
+    chk.stream("PureFockSimulator(shots=None) on the encoded program, post-selected on the code space, vs exact model probabilities",
+               n_sem, len(seen), samples=samples,
+               note="%d with entangling gates; max deviation by number of entangling gates: %s" % (
+                   n_sem_ent, {k: float("%.3g" % v) for k, v in sorted(maxdev.items())}))
+
+    # get_bosonic_qubit_samples
+    raws = [[[1, 0, 0, 1], [0, 1, 0, 1]], [[1, 0], [0, 1]], [[1, 1]], [[1, 0, 1]], [[]], [[], [1, 0]], [[2, 0]], [[0, 0, 1, 0]],
+            [[0, 1, 1, 0, 0, 1]], [[1]], []]
+    for _ in range(40 if T else 12):
+        raws.append([[chk.rng.choice([0, 1, 1, 0, 2]) for _ in range(chk.rng.choice([0, 1, 2, 2, 4, 4, 6, 3]))]
+                     for _ in range(chk.rng.randint(1, 3))])
+    pp = run_impl("c19_impl.py", {"postproc": raws})["postproc"]
+    if model_ok:
+        body = CASES_IMPORTS + "Definition raws : list (list (list nat)) := [%s].\nEval vm_compute in map samples_out raws.\n" % (
+            "; ".join("[" + "; ".join("[" + "; ".join(str(x) for x in t) + "]" for t in raw) + "]" for raw in raws))
+        try:
+            mod = parse_evals(coq_eval_parallel("c19_post", [body], jobs=1)[0])[0]
+            for raw, m, p in zip(raws, mod, pp):
+                exp = None if m == [[-1]] else m
+                got = p.get("ok")
+                if exp != got:
+                    corr_broken.append("get_bosonic_qubit_samples(%r): impl %r model %r" % (raw, p, m))
+        except Exception as e:  # noqa
+            corr_broken.append("post-processing model could not be evaluated: %s" % str(e)[-300:])
+    chk.stream("get_bosonic_qubit_samples vs model", len(raws), sum(1 for p in pp if "ok" in p), samples=[{"raw": raws[0], "impl": pp[0]}])
+
+    # ---- search: implementation vs Qiskit (independent of the model)
+    failing = {}
+    n_search = 0
+    for c, r in zip(circuits, res):
+        if str(r.get("error", "")).startswith("qiskit"):
+            continue
+        n_search += 1
+        why = impl_fails(c, r)
+        if why:
+            failing.setdefault(classify(c), []).append((c, why))
+    open_known = {k.get("key") for k in chk.known if k.get("status") == "open"}
+    for key, lst in sorted(failing.items()):
+        # prefer silently wrong statistics to a raised error, then the shortest circuit
+        c, why = min(lst, key=lambda cw: (not cw[1].startswith("max |p_impl"), len(json.dumps(cw[0]["ops"]))))
+        small = c if key in open_known else shrink(c, silent=why.startswith("max |p_impl"))
+        rr = run_impl("c19_impl.py", {"circuits": [small], "reference": True})["runs"][0]
+        why2 = impl_fails(small, rr) or why
+        obs = None
+        try:
+            obs = impl_distribution(small, rr)[0]
+        except Exception:  # noqa
+            pass
+        chk.violation(key, "dual-rail encoded circuit does not reproduce Qiskit's outcome probabilities: " + why2,
+                      {"circuit": small, "qiskit_probabilities": rr.get("qiskit"), "piquasso_probabilities": obs,
+                       "error": rr.get("error"), "failing_inputs_of_this_class": len(lst),
+                       "call": "dual_rail_encode_from_qiskit(qc) on PureFockSimulator(shots=None); bit string index: qubit 0 least significant"})
+    chk.stream("encoded circuit on PureFockSimulator vs Qiskit statevector (search, incl. else-parts, multi-qubit blocks, permuted clbits)",
+               n_search, len({json.dumps(c["ops"]) for c in circuits if len(c["ops"]) >= 2}), kind="search",
+               samples=[{"circuit": circuits[-1]["ops"], "qiskit": res[-1].get("qiskit")}])
+    # gate names that must be refused
+    for nm, ok in sent["refused"]:
+        if ok is not True:
+            chk.violation("C19:unsupported-gate-not-refused:%s" % nm, "gate name %r is not refused" % nm, {"name": nm, "result": ok})
+
+    chk.assumptions += [
+        "first-quantised semantics: a passive gate acts on the photon of a rail pair by its gates.py block (psi -> U psi); tied by the simulation stream, proved nowhere (C01)",
+        "Qiskit's circuit data model (instruction.name, params, operation.condition, Clbit._index) is used as is; the harness feeds real Qiskit 2.x objects",
+        "cutoff = photons + 1 (+1 when a gate follows a measurement: piquasso lowers the cutoff by the measured photons and refuses passive gates below cutoff 3, finding 9 of DESIGN section 5)",
+        "domain of the model and of theorem C19_encode_homomorphism: the k-th measurement writes clbit k, a measured qubit is not used again, a conditioned block acts on one qubit and has no else part; outside this domain only the search against Qiskit looks",
+    ]
+    chk.finish(
+        rule="a circuit is non-trivial when it has >= 2 operations; distinct = distinct operation lists",
+        explanation="Theorems of coq/theories/Props/C19.v about DRModel.v instantiated with EncodeGen.v (regenerated from the tree on this run); tie = emitted programs compared structurally with the model encoder and simulated probabilities compared with the model's exact values in Q(sqrt 2) (tolerance 1e-9, or 5e-4 per entangling gate for the rounded KLM angles); search = the same runs against Qiskit's statevector semantics.",
+        correspondence_broken=corr_broken,
+    )
